@@ -185,6 +185,9 @@ func VerifC06_Programs() {
 		budget = 400
 		p := vC06Paths[verif.Choice("p", len(vC06Paths))]
 		op := verif.Choice("op", 12)
+		// conflicting arguments: a regular file where the call needs a directory, or a destination that exists already
+		_, pExists := vIndex(before)[p]
+		conflicting := vFileOnTheWay(before, p) || (pExists && op <= 1)
 		switch op {
 		case 0:
 			_ = fs.MkDir(p)
@@ -204,6 +207,8 @@ func VerifC06_Programs() {
 			_, _ = fs.TouchTempFile("/", "x")
 		case 5, 6, 7: // copy / copy to directory / move
 			q := vC06Paths[verif.Choice("q", len(vC06Paths))]
+			_, qExists := vIndex(before)[q]
+			conflicting = conflicting || vFileOnTheWay(before, q) || qExists
 			srcBefore := vSubtree(before, p)
 			overlapping := vIsUnder(p, q) && p != q // destination strictly inside the source
 			movingIntoItself := overlapping && op == 7
@@ -311,7 +316,7 @@ func VerifC06_Programs() {
 		rec.before = nil
 		if !vBackendConsistent(rec.inner) {
 			// a later call would start from a state no consistent filesystem can be in
-			verif.AssertKnown("backend_state_stays_consistent", false, "KF-C06-memory-backend-inconsistent-after-conflicting-call", true)
+			verif.AssertKnown("backend_state_stays_consistent", false, "KF-C06-memory-backend-inconsistent-after-conflicting-call", conflicting)
 			verif.Stop()
 		}
 		rec.before = func(op *vOp) error {
